@@ -184,6 +184,7 @@ package machine
 
 //@ func (a Allotment) Allocate(amount *MonetaryInt) (parts []*MonetaryInt)
 //@   property C22 C24 C36
+//@   opt overflow on
 //@   requires amount != nil && val(amount) >= 0
 //@   requires posDen(a)
 //@   requires ratsum(a) == 1
